@@ -705,6 +705,21 @@ loop:
 			if strm == nil {
 				// if the stream doesn't exist, create it
 
+				if fr.Type() == FramePriority {
+					// PRIORITY can be sent for a stream in any state, idle and
+					// closed included (RFC 7540 6.3), and carries nothing this
+					// server uses. Creating a stream for it left a second
+					// Stream behind once the request arrived on the same id,
+					// turned PRIORITY on an old or skipped id into a connection
+					// error, and let a peer allocate a stream and a request
+					// context per frame that nothing ever released.
+					if fr.Body().(*Priority).Stream() == fr.Stream() {
+						sc.writeGoAway(fr.Stream(), ProtocolError, "stream that depends on itself")
+					}
+
+					continue
+				}
+
 				if fr.Type() == FrameResetStream {
 					// only send go away on idle stream not on an already-closed stream
 					if fr.Stream() > sc.lastID {
